@@ -383,7 +383,7 @@ CHECKS = {
                  "(database pages already overwritten, recovery pending). Distinct = fingerprint of (spec, k, torn)."),
         "assumptions": ["system libsqlite3 (3.40.1) is writer and recovery reference", "LD_PRELOAD interposition sees every file operation of the writer (checked: the uninterrupted run's log is non-empty and the kill happens at each k)"],
         "min_nontrivial": {"quick": 60, "thorough": 2000},
-        "required_classes": ["crash:DELETE", "crash:TRUNCATE", "crash:PERSIST", "journal-left:magic", "journal-left:absent", "sqlittle-read", "sqlittle-refused", "sector:4096", "sector:512", "synchronous:OFF", "synchronous:FULL", "journal-size-limit-set", "journal-left:zero-shorter-than-a-header", "reads-without-file-descriptors", "handles-opened-under-a-live-spilled-transaction", "long-named-database-read", "first-transaction:refused", "first-transaction:read-as-recovered", "attached:refused", "attached:read-as-recovered"],
+        "required_classes": ["crash:DELETE", "crash:TRUNCATE", "crash:PERSIST", "journal-left:magic", "journal-left:absent", "sqlittle-read", "sqlittle-refused", "sector:4096", "sector:512", "synchronous:OFF", "synchronous:FULL", "journal-size-limit-set", "journal-left:zero-shorter-than-a-header", "reads-without-file-descriptors", "handles-opened-under-a-live-spilled-transaction", "long-named-database-read", "first-transaction:refused", "first-transaction:read-as-recovered", "attached:refused", "attached:read-as-recovered", "reads-with-a-failing-reserved-probe"],
         "timeout": {"quick": 400, "thorough": 2400},
         "jobs": [
             job("crash", "c09", ["TestC09Crash"], 4, 60, 4, 12),
